@@ -760,14 +760,16 @@ BOUNDED = {
         "functions": ["LikelihoodFunction.initialise_from_nested", "likelihood_function._ParamProjection",
                       "likelihood_function.update_scoped_rules", "ParameterController.apply_param_rules",
                       "ParameterController.optimise (after the initialisation)"],
-        "bound": "all 19 pairs of the published nesting order on {JC69,K80,F81,HKY85,TN93,GTR,ssGN,GN} x frequency treatment "
+        "bound": "all 23 pairs of the published nesting order on {JC69,K80,F81,HKY85,TN93,GTR,ssGN,GN} x frequency treatment "
                  "(fixed/fixed, fixed/free, free/free); rate scopes const<shared<{a,b}<{a},{b}<per-edge (all 10 pairs) on "
                  "HKY85/GTR (thorough +GN,TN93,K80); length scopes equal<clock(a,b)<free, const<free; richer matrix with wider "
                  "scope; alt preset with starting values; 4-6 codon pairs; trees of 3-4 tips (thorough 5), 2 alignments "
                  "(thorough 3 + random), null state = 25-evaluation fit or table-drawn values (thorough: 0/60/150 evaluations, "
-                 "global fit, 3 value seeds); follow-up optimise of 1-40 evaluations; thorough adds 600 seeded random cases",
+                 "global fit, 3 value seeds; a third to a half of each grid, offset per pair); follow-up optimise of 1-40 "
+                 "evaluations; thorough adds 600 seeded random cases",
         "rule": "a case = (null spec, alt spec, tree, alignment, null state, alt preset, follow-up optimiser); skipped when the "
-                "method's precondition nfp(alt) > nfp(null) fails; non-trivial when the alt's lnL before the call differs from "
+                "method's precondition nfp(alt) > nfp(null) fails or the null's fitted point is not representable inside the "
+                "alt's declared bounds (projection by the published rate-matrix definitions); non-trivial when the alt's lnL before the call differs from "
                 "the null's; distinct by hash of the case",
     },
     "optimise": {
@@ -793,6 +795,6 @@ BOUNDED = {
                  "custom app bounds) x 2 trees x 2 alignments (thorough 4 x 3) x max_evaluations 1,5,50 local and 25 "
                  "global+local (thorough +4 settings, +300 seeded random cases)",
         "rule": "a case = (chain of model app specs, tree, alignment, opt_args); skipped when the fitted models are not "
-                "strictly increasing in nfp; non-trivial when LR > 0 or the limit is <= 5; distinct by hash of the case",
+                "strictly increasing in nfp or a fitted point is not representable inside the next app's bounds; non-trivial when LR > 0 or the limit is <= 5; distinct by hash of the case",
     },
 }
